@@ -32,6 +32,9 @@ enum {
 	FS_WRITE,		/* write on a marked fd: errno */
 	FS_READ,		/* read on a marked fd: errno */
 	FS_FORK,		/* fork: EAGAIN */
+	FS_PTHREAD_CREATE,	/* pthread_create: EAGAIN */
+	FS_INOTIFY_INIT,	/* inotify_init: EMFILE */
+	FS_INOTIFY_ADD,		/* inotify_add_watch: ENOSPC / ENOENT */
 	FS_MAX
 };
 
@@ -159,6 +162,8 @@ void	simk_fd_mark(int fd, int flags);	/* harness: enable short io / faults on fd
 /* signals (simulated) */
 int	simk_raise_process(int sig);		/* process-directed */
 int	simk_raise_thread(int tid, int sig);	/* thread-directed */
+void	simk_fault_once(int site, int err);	/* arm a fault for the calling thread's next call at the site */
+int	simk_fault_once_pending(int site);	/* disarm; returns the errno if it had not fired */
 int	simk_sigaction_query(int sig);		/* 0 SIG_DFL, 1 SIG_IGN, 2 handler */
 void	*simk_sigaction_handler(int sig);
 int	simk_harness_sigaction(int sig, void (*fn)(int));	/* harness installs a handler in the sim table */
